@@ -178,13 +178,26 @@ def layer_b(ctx, n_cases):
     hq, hqd = scan.link_types(sysm, f, 'qd', 'll', jp.asarray(q, dtype=jp.float64), jp.asarray(qd, dtype=jp.float64))
     lines.append(' '.join(['slices', typs, str(nq)] + [str(int(v)) for v in q] + [str(nv)] + [str(int(v)) for v in qd]))
     expect.append([int(v) for pair in zip(np.asarray(hq), np.asarray(hqd)) for v in pair]); what.append(('scan.link_types', typs))
+  # exhaustive: EVERY forest with parents preceding children of up to 6 links (873 forests; the property's
+  # quantifier is forests of 1-6 links) — 7 links (5040 more) in thorough — through the real scan.tree, both directions
+  import itertools
+  for n in range(1, ctx.budget(6, 7) + 1):
+    for ps in itertools.product(*[range(-1, i) for i in range(n)]):
+      parents = list(ps)
+      sysm = pytypes.SimpleNamespace(link_types='1' * n, link_parents=tuple(parents))
+      a = [(7 * (i + 1) + 3 * n) % 1000 for i in range(n)]
+      fwd = scan.tree(sysm, lambda y, x: x % M if y is None else (31 * y + x) % M, 'l', jp.asarray(a))
+      rev = scan.tree(sysm, lambda y, x: (x + 7) % M if y is None else (x + 37 * y) % M, 'l', jp.asarray(a), reverse=True)
+      hdr = [str(n)] + [str(p) for p in parents] + [str(n)] + [str(v) for v in a]
+      lines.append(' '.join(['scanfwd'] + hdr)); expect.append([int(v) for v in np.asarray(fwd)]); what.append(('scan.tree (exhaustive)', parents))
+      lines.append(' '.join(['scanrev'] + hdr)); expect.append([int(round(float(v))) for v in np.asarray(rev)]); what.append(('scan.tree reverse (exhaustive)', parents))
   out = C.run_driver('Driver/C01.lean', lines)
   dis = []
   for o, e, w in zip(out, expect, what):
     got = [int(t) for t in o.split()] if not o.startswith('bad') else o
     if got != e:
       dis.append(dict(what=f'Layer B: {w[0]} differs from its model', shape=w[1], lean=got, real=e))
-  return len(lines), dis
+  return len(lines), dis[:5]
 
 
 def correspond(ctx):
@@ -209,6 +222,19 @@ def correspond(ctx):
 
 
 def search(ctx, broken, corr):
+  fails = []
+  # a forest on which scan.tree left its recursion: evaluate the property on models with exactly that topology
+  shapes = [d['shape'] for d in corr.get('disagreements', []) if isinstance(d.get('shape'), list)]
+  for parents in shapes[:3]:
+    # the document order of modelgen is depth-first; only forests already in that order can be requested verbatim
+    try:
+      _, _, f, _ = run_cases(ctx, 2, 2, gen_opts=dict(parents=parents, stack=(1, 1), roots='world', max_children=99),
+                             seed_offset=2000)
+      fails += f
+    except Exception:
+      pass
+  if fails:
+    return fails
   _, _, fails, _ = run_cases(ctx, ctx.budget(60, 600), 3, seed_offset=1000)
   return fails
 
